@@ -13,7 +13,9 @@ From Golem Require Export Base.CheckLib.
 From Golem Require Import Pipe.Chan08 Pipe.Queue Pipe.Unbound.
 Import ListNotations.
 
-Inductive move := MInit | MSend (x : Z) | MRecv | MCancel | MClose.
+(* [MRacy] is a marker, not a move: the NEXT move was not followed by synctest.Wait(), so the pump may be anywhere
+   between that move and the one after it *)
+Inductive move := MInit | MSend (x : Z) | MRecv | MCancel | MClose | MRacy.
 Inductive outcome := ODone | OBlocked | OVal (v : Z) | OClosed | OCrash.
 Inductive qobs := QE (x : Z) | QD (v : Z) | QH (v : Z) | QM (b : bool) | QDcrash.
 Inductive case :=
@@ -30,7 +32,7 @@ Definition state_eqb (a b : state) : bool :=
   list_eqbZ (sent a) (sent b) && list_eqbZ (inbuf a) (inbuf b) && Bool.eqb (in_closed a) (in_closed b)
   && Bool.eqb (snd_closed a) (snd_closed b) && list_eqbZ (q a) (q b) && list_eqbZ (egbuf a) (egbuf b)
   && Bool.eqb (eg_closed a) (eg_closed b) && list_eqbZ (rcvd a) (rcvd b) && Bool.eqb (seen_closed a) (seen_closed b)
-  && Bool.eqb (cancelled a) (cancelled b) && ppc_eqb (pc a) (pc b) && Bool.eqb (panic a) (panic b).
+  && Bool.eqb (cancelled a) (cancelled b) && ppc_eqb (pc a) (pc b) && Bool.eqb (busy a) (busy b) && Bool.eqb (panic a) (panic b).
 Fixpoint add_state (s : state) (l : list state) : list state :=
   match l with
   | [] => [s]
@@ -62,7 +64,7 @@ Fixpoint settle (fuel : nat) (ss : list state) : list state :=
 Definition next_val (s : state) : option Z :=
   match egbuf s with
   | y :: _ => Some y
-  | [] => if negb (eg_closed s) && (ceg =? 0) && at_send (pc s) then hd_error (q s) else None
+  | [] => if negb (eg_closed s) && (ceg =? 0) && at_send (pc s) && negb (busy s) then hd_error (q s) else None
   end.
 Definition can_rcv (s : state) : bool :=
   match next_val s, step cin ceg d s ERcvdClosed with None, None => false | _, _ => true end.
@@ -87,20 +89,30 @@ Definition apply (s : state) (m : move) (o : outcome) : list state :=
   | _, _ => []
   end.
 
-Fixpoint run (fuel : nat) (ss : list state) (ms : list (move * outcome)) : list state :=
+(* every state internal steps can reach, the given ones included (the pump was not waited for) *)
+Fixpoint reach (fuel : nat) (ss : list state) : list state :=
+  match fuel with
+  | O => ss
+  | S f => let nxt := dedup (ss ++ flat_map succs ss) in
+           if length nxt =? length ss then ss else reach f nxt
+  end.
+
+Fixpoint run (fuel : nat) (racy : bool) (ss : list state) (ms : list (move * outcome)) : list state :=
   match ms with
   | [] => ss
+  | (MRacy, _) :: r => run fuel true ss r
   | (m, o) :: r =>
-      let ss' := settle fuel (dedup (flat_map (fun s => apply s m o) ss)) in
+      let after := dedup (flat_map (fun s => apply s m o) ss) in
       match o with
-      | OCrash => filter panic ss'                       (* nothing is observed after a crash *)
-      | _ => run fuel (filter (fun s => negb (panic s)) ss') r
+      | OCrash => filter panic (settle fuel after)       (* nothing is observed after a crash *)
+      | _ => let ss' := if racy then reach fuel after else settle fuel after in
+             run fuel false (filter (fun s => negb (panic s)) ss') r
       end
   end.
 
 Definition accepts (ms : list (move * outcome)) : bool :=
   let fuel := 4 * length ms + 12 in
-  negb (is_nil (run fuel (settle fuel [init]) ms)).
+  negb (is_nil (run fuel false (settle fuel [init]) ms)).
 End Accept.
 
 (* =============================== pump: the property over observations =============================== *)
@@ -110,34 +122,45 @@ Record obs := mkobs {
   o_cancel : option (list Z);    (* completed sends at the moment of cancel *)
   o_closedsnd : bool;
   o_seen : bool;                 (* the receive side was seen closed *)
+  o_quiet : bool;                (* the previous move was followed by Wait: the pump is durably blocked now *)
+  o_racy : bool;                 (* the move being looked at is NOT followed by Wait *)
   o_ok : bool
 }.
-Definition obs0 : obs := mkobs [] [] None false false true.
+Definition obs0 : obs := mkobs [] [] None false false true false true.
 Definition ending (o : obs) : bool := match o_cancel o with Some _ => true | None => o_closedsnd o end.
-Definition bad (o : obs) : obs := mkobs (o_sent o) (o_rcvd o) (o_cancel o) (o_closedsnd o) (o_seen o) false.
+Definition bad (o : obs) : obs :=
+  mkobs (o_sent o) (o_rcvd o) (o_cancel o) (o_closedsnd o) (o_seen o) (o_quiet o) (o_racy o) false.
+Definition moved (o : obs) : obs :=
+  mkobs (o_sent o) (o_rcvd o) (o_cancel o) (o_closedsnd o) (o_seen o) (negb (o_racy o)) false (o_ok o).
 
-Definition ostep (o : obs) (mo : move * outcome) : obs :=
+Definition ostep1 (o : obs) (mo : move * outcome) : obs :=
   match mo with
   | (_, OCrash) => bad o                                                      (* no crash *)
   | (MInit, _) => o
-  | (MSend x, ODone) => mkobs (o_sent o ++ [x]) (o_rcvd o) (o_cancel o) (o_closedsnd o) (o_seen o) (o_ok o)
-  | (MSend x, OBlocked) => if ending o then o else bad o                      (* never blocks the sender *)
+  | (MSend x, ODone) =>
+      mkobs (o_sent o ++ [x]) (o_rcvd o) (o_cancel o) (o_closedsnd o) (o_seen o) (o_quiet o) (o_racy o) (o_ok o)
+  | (MSend x, OBlocked) => if ending o || negb (o_quiet o) then o else bad o  (* never blocks the sender *)
   | (MRecv, OVal v) =>
       let r := o_rcvd o ++ [v] in
-      mkobs (o_sent o) r (o_cancel o) (o_closedsnd o) (o_seen o)
+      mkobs (o_sent o) r (o_cancel o) (o_closedsnd o) (o_seen o) (o_quiet o) (o_racy o)
             (o_ok o && prefixb r (o_sent o) && negb (o_seen o))               (* FIFO, once, nothing invented *)
   | (MRecv, OClosed) =>
       let must := match o_cancel o with Some l => l | None => o_sent o end in
-      mkobs (o_sent o) (o_rcvd o) (o_cancel o) (o_closedsnd o) true
+      mkobs (o_sent o) (o_rcvd o) (o_cancel o) (o_closedsnd o) true (o_quiet o) (o_racy o)
             (o_ok o && ending o && prefixb must (o_rcvd o))                   (* delivered before it closes *)
-  | (MRecv, OBlocked) => if ending o || o_seen o then bad o else o            (* the stream does end *)
+  | (MRecv, OBlocked) => if (ending o && o_quiet o) || o_seen o then bad o else o   (* the stream does end *)
   | (MCancel, ODone) =>
       match o_cancel o with
       | Some _ => o
-      | None => mkobs (o_sent o) (o_rcvd o) (Some (o_sent o)) (o_closedsnd o) (o_seen o) (o_ok o)
+      | None => mkobs (o_sent o) (o_rcvd o) (Some (o_sent o)) (o_closedsnd o) (o_seen o) (o_quiet o) (o_racy o) (o_ok o)
       end
-  | (MClose, ODone) => mkobs (o_sent o) (o_rcvd o) (o_cancel o) true (o_seen o) (o_ok o)
+  | (MClose, ODone) => mkobs (o_sent o) (o_rcvd o) (o_cancel o) true (o_seen o) (o_quiet o) (o_racy o) (o_ok o)
   | _ => bad o
+  end.
+Definition ostep (o : obs) (mo : move * outcome) : obs :=
+  match mo with
+  | (MRacy, _) => mkobs (o_sent o) (o_rcvd o) (o_cancel o) (o_closedsnd o) (o_seen o) (o_quiet o) true (o_ok o)
+  | _ => moved (ostep1 o mo)
   end.
 Definition pump_oracle (ms : list (move * outcome)) : bool := o_ok (fold_left ostep ms obs0).
 
